@@ -81,6 +81,8 @@ def run(ck, prop, stream, families_note, variants=None, judge=None, theorems=Non
     for k in findings:
         w = k.get("witness_case")
         if not w:
+            if k.get("note_only"):
+                ck.known.append(f"KNOWN-FINDING: property={prop} {k['id']}: {k['short']} [not exercised by any generated case; excuses nothing]")
             continue
         still = cpu.fails(w, k["witness_variant"], k["witness_par"])
         if still:
